@@ -88,10 +88,21 @@ def token_lines(bound):
 def check_C15(tier_, sd, consts_ok, consts_detail):
     rng = Rng(sd).fork("C15")
     bound = 4 if tier_ == "quick" else 5
-    lines = list(token_lines(bound))
+    lines = list(token_lines(4))
     dcases = ["D " + hx(l) for l in lines]
     impl = run_impl(dcases); model = run_model(dcases)
     bad = diff_cases(dcases, impl, model)
+    extra_detect = 0; extra_bad = []
+    if bound == 5:
+        # thorough: all 5-token lines, streamed in 22 shards (one per first token) to bound memory; only disagreements are kept
+        seen4 = set(lines)
+        for t0 in TOKENS:
+            shard = sorted({t0 + "".join(c) for c in itertools.product(TOKENS, repeat=4)} - seen4)
+            sc = ["D " + hx(l) for l in shard]
+            si = run_impl(sc); sm = run_model(sc)
+            extra_detect += len(sc)
+            for k in diff_cases(sc, si, sm)[:3]: extra_bad.append((sc[k], si[k], sm[k]))
+            del sc, si, sm, shard
     detected = [k for k, m in enumerate(model) if m != "D -"]
     # continuation pairs: distinct (ws, prefix, type) of detected directives with <= 3 tokens ...
     dirs = collections.OrderedDict()
@@ -146,6 +157,7 @@ def check_C15(tier_, sd, consts_ok, consts_detail):
                 "case": case, "case_readable": decode_case(case) if not case.startswith("R ") else None,
                 "expected_by_documented_grammar(model)": m, "implementation": i}}
     for k in bad[:5]: violations.append(mk("detect_from", dcases[k], impl[k], model[k]))
+    for (c_, i_, m_) in extra_bad[:5]: violations.append(mk("detect_from", c_, i_, m_))
     for k in abad[:5]: violations.append(mk("add_line", acases[k], aimpl[k], amodel[k]))
     for k in ebad[:5]: violations.append(mk("whole-file line kept vs consumed", e2e_cases[k], eimpl[k], emodel[k]))
     for b in vmbad[:3]:
@@ -153,7 +165,7 @@ def check_C15(tier_, sd, consts_ok, consts_detail):
     kinds = collections.Counter(m.split(" ")[3] if m != "D -" else "-" for m in model)
     akinds = collections.Counter(m.split(" ")[1] for m in amodel)
     cov = {
-        "evaluations": len(dcases) + len(acases) + len(e2e_cases),
+        "evaluations": len(dcases) + extra_detect + len(acases) + len(e2e_cases),
         "distinct_nontrivial": len(set(model[k] for k in detected)) + len(set(a for a in amodel if a != "A stop")),
         "rule": "every concatenation of <= %d tokens from a %d-token alphabet (white space incl. U+00A0/U+3000, prefixes, TXTPP#, near-miss names) through detect_from; "
                 "every distinct detected (whitespace, prefix, type) x whitespace/prefix/remainder variants through add_line; "
@@ -161,11 +173,11 @@ def check_C15(tier_, sd, consts_ok, consts_detail):
         "exhaustive": True,
         "exhaustive_bound": "lines of <= %d tokens" % bound,
         "samples": [decode_case(dcases[detected[len(detected) // 3]]), decode_case(acases[len(acases) // 2])] if detected and acases else [],
-        "detect_cases": len(dcases), "detect_distribution": dict(kinds),
+        "detect_cases": len(dcases) + extra_detect, "detect_distribution": dict(kinds),
         "addline_cases": len(acases), "addline_distribution": dict(akinds),
         "whole_file_cases": len(e2e_cases),
         "vm_compute_crosschecked": nvm,
-        "disagreements": len(bad) + len(abad) + len(ebad),
+        "disagreements": len(bad) + len(extra_bad) + len(abad) + len(ebad),
     }
     return {"coverage": cov, "violations": violations}
 
